@@ -378,6 +378,12 @@ class StmtMixin(CallMixin):
                     else:
                         outs.append(o)
                 return outs
+            if isinstance(s, ast.AsyncWith) and s.items[0].optional_vars is None and ast.unparse(ce) in self.c.locks_:
+                # `async with <asyncio.Lock>`: acquiring may suspend (a yield point); Lock.__aexit__ releases without
+                # suspending. The mutual exclusion the lock provides is not used (weaker assumption, still sound).
+                self.trusted_used.add("asyncio.Lock %s: acquire = yield point, release does not suspend" % ast.unparse(ce))
+                self.yield_point(st, s)
+                return self.exec_block(s.body, st)
         raise Unsupported("with statement (line %s)" % self.cur_line)
 
     st_AsyncWith = st_With
@@ -919,10 +925,14 @@ class StmtMixin(CallMixin):
                 ty = self.any_field_ty(cls, fld)
             except Unsupported:
                 continue
-            oldm = self.hmap(st, cls, fld, ty)
             newm = z3.FreshConst(z3.ArraySort(z3.IntSort(), ty.sort()), "y_%s_%s" % (cls, _safe(fld)))
-            for loc in keep:
-                a = self.loc_matches(pre, loc, None, cls, fld) if False else None
+            if (cls, fld) not in self.heap0 and (cls, fld) not in st.heap \
+                    and not any(loc.rpartition(".")[2] in ("*", fld) for loc in keep):
+                # never read or written so far and not owned: the new map needs no link to the entry map (which is
+                # created, with its well-formedness axiom, only if an old() expression asks for it later)
+                st.heap[(cls, fld)] = newm
+                continue
+            oldm = self.hmap(st, cls, fld, ty)
             st.heap[(cls, fld)] = newm
             # owned locations keep their value
             for loc in keep:
